@@ -212,6 +212,10 @@ func TestVerif_C20(t *testing.T) {
 			refs.External = l[rng.Intn(len(l))].Hash
 		case "unknown-external":
 			refs.External = crypto.Blake3Hash([]byte(fmt.Sprint("unknown-round", i)))
+			if rng.Intn(2) == 0 { // and a self reference that is not the hash of the previous final round
+				refs.Self = crypto.Blake3Hash([]byte(fmt.Sprint("wrong-self-unknown", i)))
+				variant = "unknown-external-wrong-self"
+			}
 		}
 		if !wantNew && refs.External == cache.References.External {
 			variant = "same-references"
